@@ -100,73 +100,79 @@ Definition op_inv_weight : opfun := fun zs qs =>
       end
   | _, _ => Err (-1) end.
 
-(* ---- configuration histories (the repaired code).  zs = kind :: ns :: m :: steps, every step = [mode; has_custom; has_computed]
-        (kind 0 generic class, 1 fast class; mode 0 identity, 1 custom, 2 inverse sample, 3 inverse unbiased,
-        4 the accepted alias "unbiased_inverse_covariance", 5 direct set_weight_matrices(custom) on the object);
-        qs = per step [custom (ns*m*m)] ++ [computed (ns*m*m)].
-        -> Err k when step k (1-based) raises; else has_w :: [W] ++ has_ext :: [E] *)
+(* ---- configuration histories (the repaired code), WITH option identities.
+        zs = kind :: ns :: m :: has_w0 :: has_e0 :: held :: steps, every step = [mode; oid; has_custom; has_computed]
+        (kind 0 generic class, 1 fast class; held = identity of the option object the loss holds, -1 none; mode 0 identity,
+        1 custom, 2 inverse sample, 3 inverse unbiased, 4 the accepted alias "unbiased_inverse_covariance",
+        5 direct set_weight_matrices(custom) on the object; oid = identity of the option object handed in);
+        qs = [W0 (ns*m*m)] ++ [E0 (N*N)] ++ per step [custom (ns*m*m)] ++ [computed (ns*m*m)].
+        -> Err k when step k (1-based) raises; else held' :: has_w :: [W] ++ has_ext :: [E] *)
 Definition mode_of (z : Z) : wmode :=
   if (z =? 0)%Z then MIdentity else if (z =? 1)%Z then MCustom else if (z =? 2)%Z then MInvSample
   else if (z =? 3)%Z then MInvUnbiased else MAliasUnbiasedInv.
-Fixpoint run_steps (kind : Z) (ns m : nat) (k : Z) (steps : list Z) (qs : list Qc) (st : @fstate Qc_OF) : res :=
+Definition held_of (z : Z) : option nat := if (z <? 0)%Z then None else Some (nat_of z).
+Definition z_of_held (h : option nat) : Qc := match h with Some n => qz (Z.of_nat n) | None => qz (-1) end.
+Fixpoint run_steps (kind : Z) (ns m : nat) (k : Z) (steps : list Z) (qs : list Qc) (os : @ostate Qc_OF) : res :=
   match steps with
-  | md :: hc :: hk :: rest =>
+  | md :: oid :: hc :: hk :: rest =>
       let sz := (ns * m * m)%nat in
       let '(c, r) := if (hc =? 0)%Z then ([], qs) else seg sz qs in
       let '(cmp, r) := if (hk =? 0)%Z then ([], r) else seg sz r in
       let custom : @wts Qc_OF := if (hc =? 0)%Z then None else Some (wtsl ns m c) in
       let computed := if (hk =? 0)%Z then None else Some (wtsl ns m cmp) in
-      let s : @cstep Qc_OF := if (md =? 5)%Z then SSet custom else SConfig (mode_of md) custom computed in
+      let s : @ostep Qc_OF := if (md =? 5)%Z then OSet custom else OConfig (nat_of oid) (mode_of md) custom computed in
       let nxt := if (kind =? 0)%Z then
-                   match step_generic s (f_w st) with COk w => COk {| f_w := w; f_ext := None |} | CErr => CErr end
-                 else step_fast m s st in
+                   match step_generic_o s (f_w (o_st os), o_opt os) with
+                   | COk (w, h) => COk {| o_st := {| f_w := w; f_ext := None |}; o_opt := h |} | CErr => CErr end
+                 else step_fast_o m s os in
       match nxt with
-      | COk st' => run_steps kind ns m (k + 1)%Z rest r st'
+      | COk os' => run_steps kind ns m (k + 1)%Z rest r os'
       | CErr => Err k
       end
   | _ =>
-      let N := (ns * m)%nat in
-      Ok ((match f_w st with Some w => qz 1 :: flat_wts ns m w | None => [qz 0] end)
+      let N := (ns * m)%nat in let st := o_st os in
+      Ok (z_of_held (o_opt os) ::
+          (match f_w st with Some w => qz 1 :: flat_wts ns m w | None => [qz 0] end)
           ++ (match f_ext st with Some e => qz 1 :: lmat N N e | None => [qz 0] end))
   end.
-(* from a given object state: zs = kind :: ns :: m :: has_w0 :: has_e0 :: steps;
-   qs = [W0 (ns*m*m)] ++ [E0 (N*N)] ++ step data *)
 Definition op_config_from : opfun := fun zs qs =>
   match zs with
-  | kind :: ns :: m :: hw0 :: he0 :: steps =>
+  | kind :: ns :: m :: hw0 :: he0 :: held :: steps =>
       let ns := nat_of ns in let m := nat_of m in let N := (ns * m)%nat in
       let '(w0, r) := if (hw0 =? 0)%Z then ([], qs) else seg (ns * m * m) qs in
       let '(e0, r) := if (he0 =? 0)%Z then ([], r) else seg (N * N) r in
       let st0 : @fstate Qc_OF := {| f_w := if (hw0 =? 0)%Z then None else Some (wtsl ns m w0);
                                     f_ext := if (he0 =? 0)%Z then None else Some (matl N N e0) |} in
-      run_steps kind ns m 1%Z steps r st0
+      run_steps kind ns m 1%Z steps r {| o_st := st0; o_opt := held_of held |}
   | _ => Err (-1) end.
 
-(* fast relative-entropy object (the repaired code): zs = ns :: m :: has_w0 :: has_ew0 :: steps, every step = [op; custom_mode; has_w]
-   (op 1: set_from_standard_qtomography_option_data with the option's mode / weights, 2: set_weights on the configured
-   object); qs = [w0(ns)] ++ [ew0(N)] ++ per step [w(ns)].
-   -> has_w :: [w] ++ sel :: [ew(N)]   with sel 0: value() uses no weights, 1: uses ew, 2: value() raises AttributeError *)
-Fixpoint run_re_steps (ns m : nat) (steps : list Z) (qs : list Qc) (st : @rstate Qc_OF) : res :=
+(* fast relative-entropy object (the repaired code), with option identities:
+   zs = ns :: m :: has_w0 :: has_ew0 :: held :: steps, every step = [op; oid; custom_mode; has_w]
+   (op 1: set_from_standard_qtomography_option_data with option object oid / its mode / weights, 2: set_weights on the
+   configured object); qs = [w0(ns)] ++ [ew0(N)] ++ per step [w(ns)].
+   -> held' :: has_w :: [w] ++ sel :: [ew(N)]   with sel 0: value() uses no weights, 1: uses ew, 2: value() raises AttributeError *)
+Fixpoint run_re_steps (ns m : nat) (steps : list Z) (qs : list Qc) (os : @rostate Qc_OF) : res :=
   match steps with
-  | op :: cm :: hw :: rest =>
+  | op :: oid :: cm :: hw :: rest =>
       let '(w, r) := if (hw =? 0)%Z then ([], qs) else seg ns qs in
       let wo : option qvec := if (hw =? 0)%Z then None else Some (vec_of_list 0%Qc w) in
-      let s : @rstep Qc_OF := if (op =? 1)%Z then RConfig (negb (cm =? 0)%Z) wo else RSet wo in
-      run_re_steps ns m rest r (step_re_fast m s st)
+      let s : @rostep Qc_OF := if (op =? 1)%Z then ROConfig (nat_of oid) (negb (cm =? 0)%Z) wo else ROSet wo in
+      run_re_steps ns m rest r (step_re_fast_o m s os)
   | _ =>
-      let N := (ns * m)%nat in
-      Ok ((match r_w st with Some w => qz 1 :: list_of_vec ns w | None => [qz 0] end)
+      let N := (ns * m)%nat in let st := ro_st os in
+      Ok (z_of_held (ro_opt os) ::
+          (match r_w st with Some w => qz 1 :: list_of_vec ns w | None => [qz 0] end)
           ++ (match re_fast_sel st with COk None => [qz 0] | COk (Some e) => qz 1 :: list_of_vec N e | CErr => [qz 2] end))
   end.
 Definition op_config_re_from : opfun := fun zs qs =>
   match zs with
-  | ns :: m :: hw0 :: he0 :: steps =>
+  | ns :: m :: hw0 :: he0 :: held :: steps =>
       let ns := nat_of ns in let m := nat_of m in let N := (ns * m)%nat in
       let '(w0, r) := if (hw0 =? 0)%Z then ([], qs) else seg ns qs in
       let '(e0, r) := if (he0 =? 0)%Z then ([], r) else seg N r in
       let w0o : option qvec := if (hw0 =? 0)%Z then None else Some (vecl w0) in
       let e0o : option qvec := if (he0 =? 0)%Z then None else Some (vecl e0) in
-      run_re_steps ns m steps r {| r_w := w0o; r_ew := e0o |}
+      run_re_steps ns m steps r {| ro_st := {| r_w := w0o; r_ew := e0o |}; ro_opt := held_of held |}
   | _ => Err (-1) end.
 
 (* ---- relative entropy.  The logarithm is not computed: the reply carries, per flat index, the WEIGHTED coefficient
